@@ -192,22 +192,65 @@ class Model:
     def add(self, constraint):
         self._constraints.append(constraint)
 
-    def _flatten_sum(self, expr):
-        terms = []
+    def _linearize(self, expr):
+        """Flatten a linear expression into ({variable name: coefficient}, constant)."""
+        coefs: dict[str, int] = {}
         const = 0
 
-        def flatten(e):
+        def walk(e, k):
             nonlocal const
             if isinstance(e, IntVar):
-                terms.append(e)
+                coefs[e.name] = coefs.get(e.name, 0) + k
             elif isinstance(e, int):
-                const += e
+                const += k * e
             elif isinstance(e, tuple) and e[0] == "add":
-                flatten(e[1])
-                flatten(e[2])
+                walk(e[1], k)
+                walk(e[2], k)
+            elif isinstance(e, tuple) and e[0] == "sub":
+                walk(e[1], k)
+                walk(e[2], -k)
+            elif isinstance(e, tuple) and e[0] == "rsub":
+                walk(e[2], k)
+                walk(e[1], -k)
+            elif isinstance(e, tuple) and e[0] == "mul":
+                walk(e[1], k * e[2])
+            else:
+                raise ValueError(f"Unsupported expression: {e!r}")
 
-        flatten(expr)
-        return terms, const
+        walk(expr, 1)
+        return coefs, const
+
+    def _linear_diff(self, left, right):
+        """Normalize left ?= right to sum(coef * var) + const ?= 0 with nonzero coefficients."""
+        coefs, const = self._linearize(left)
+        right_coefs, right_const = self._linearize(right)
+        for name, k in right_coefs.items():
+            coefs[name] = coefs.get(name, 0) - k
+        return [(name, k) for name, k in coefs.items() if k != 0], const - right_const
+
+    def _satisfied(self, constraint, value) -> bool:
+        """Check a constraint under a complete assignment (value: variable name -> int)."""
+        if not isinstance(constraint, tuple):
+            return True
+
+        kind = constraint[0]
+
+        if kind == "all_different":
+            vals = [value[var.name] for var in constraint[1]]
+            return len(set(vals)) == len(vals)
+        if kind == "eq_const":
+            return value[constraint[1].name] == constraint[2]
+        if kind == "ne_const":
+            return value[constraint[1].name] != constraint[2]
+        if kind == "eq_var":
+            return value[constraint[1].name] == value[constraint[2].name]
+        if kind == "ne_var":
+            return value[constraint[1].name] != value[constraint[2].name]
+        if kind == "ne_expr":
+            terms, const = self._linear_diff(constraint[1], constraint[2])
+            total = const + sum(k * value[name] for name, k in terms)
+            return (total != 0) if constraint[3] else (total == 0)
+        return True
 
     def sum_eq(self, variables, target):
         return ("sum_eq", tuple(variables), target)
@@ -298,11 +341,15 @@ class Model:
             iterations[0] += 1
 
             # Check if all assigned
-            unassigned = [n for n in domains if len(domains[n]) > 1 and not n.startswith("_")]
+            unassigned = [n for n in domains if len(domains[n]) > 1]
             if not unassigned:
-                # Found solution
-                sol = {n: next(iter(d)) for n, d in domains.items() if not n.startswith("_")}
-                solutions.append(sol)
+                # Propagation is incomplete: accept the leaf only if every constraint holds
+                value = {n: next(iter(d)) for n, d in domains.items()}
+                if not all(self._satisfied(c, value) for c in self._constraints):
+                    return False
+                sol = {n: v for n, v in value.items() if not n.startswith("_")}
+                if sol not in solutions:
+                    solutions.append(sol)
                 return len(solutions) >= solution_limit
 
             # MRV: pick variable with smallest domain
@@ -404,28 +451,28 @@ class Model:
 
     def _propagate_ne_expr(self, left, right, is_ne: bool, domains: dict[str, set[int]]) -> bool:
         """Propagate (left_expr != right_expr) or (left_expr == right_expr)."""
-        left_terms, left_const = self._flatten_sum(left)
-        right_terms, right_const = self._flatten_sum(right)
+        terms, const = self._linear_diff(left, right)
 
-        if len(left_terms) == 1 and len(right_terms) == 1:
-            var1, var2 = left_terms[0], right_terms[0]
-            offset = right_const - left_const
+        # Only var1 - var2 + const ?= 0 is propagated; other shapes are decided at the leaves
+        if len(terms) == 2 and {terms[0][1], terms[1][1]} == {1, -1}:
+            name1, name2 = (terms[0][0], terms[1][0]) if terms[0][1] == 1 else (terms[1][0], terms[0][0])
+            offset = -const
 
             if is_ne:
                 # var1 != var2 + offset
-                if len(domains[var1.name]) == 1:
-                    v1 = next(iter(domains[var1.name]))
-                    domains[var2.name].discard(v1 - offset)
-                if len(domains[var2.name]) == 1:
-                    v2 = next(iter(domains[var2.name]))
-                    domains[var1.name].discard(v2 + offset)
+                if len(domains[name1]) == 1:
+                    v1 = next(iter(domains[name1]))
+                    domains[name2].discard(v1 - offset)
+                if len(domains[name2]) == 1:
+                    v2 = next(iter(domains[name2]))
+                    domains[name1].discard(v2 + offset)
             else:
                 # var1 == var2 + offset
-                valid1 = {v for v in domains[var1.name] if (v - offset) in domains[var2.name]}
-                valid2 = {v for v in domains[var2.name] if (v + offset) in domains[var1.name]}
+                valid1 = {v for v in domains[name1] if (v - offset) in domains[name2]}
+                valid2 = {v for v in domains[name2] if (v + offset) in domains[name1]}
                 if not valid1 or not valid2:
                     return False
-                domains[var1.name] = valid1
-                domains[var2.name] = valid2
+                domains[name1] = valid1
+                domains[name2] = valid2
 
         return True
